@@ -85,6 +85,8 @@ fn pdata_for(guid: [u8; 16]) -> Vec<u8> {
 
 const RTPS_KINDS: [&str; 5] = ["NONE", "SIGN", "ENCRYPT", "SIGN_WITH_ORIGIN_AUTHENTICATION", "ENCRYPT_WITH_ORIGIN_AUTHENTICATION"];
 const TOPICS: [&str; 8] = ["Tn", "Tms", "Tme", "Tmo", "Tds", "Tde", "Tb", "Tbs"];
+/// what the signed governance fixtures say about each topic: (metadata protection, data protection)
+const TOPIC_RULES: [(bool, bool); 8] = [(false, false), (true, false), (true, false), (true, false), (false, true), (false, true), (true, true), (true, true)];
 const TYPE: &str = "X";
 const UNKNOWN: Eid = [0, 0, 0, 0];
 
@@ -315,9 +317,10 @@ pub fn run(_tier: &str, ctx: &mut Ctx) -> Check {
   l.set_participant_data(pdata_for(l.guid_of([0, 0, 1, 0xc1])));
   r.set_participant_data(pdata_for(r.guid_of([0, 0, 1, 0xc1])));
   SecParty::authenticate(&mut l, &mut r).map_err(|e| v("HARNESS-ERROR/c17-authenticate", e))?;
-  let rtps_req = l.rtps_protected().map_err(|e| v("HARNESS-ERROR/c17-attrs", e))?;
-  if rtps_req != (kind != "NONE") {
-    return Err(v("HARNESS-ERROR/c17-attrs", format!("rtps_protection_kind {kind} but is_rtps_protected={rtps_req}")));
+  // the model goes by what the signed documents say, not by what the plugins derived from them
+  let rtps_req = kind != "NONE";
+  if l.rtps_protected().map_err(|e| v("HARNESS-ERROR/c17-attrs", e))? != rtps_req {
+    ctx.count("probe.plugin_attributes_differ_from_governance");
   }
   let (lp, rp): (Prefix, Prefix) = (l.prefix_bytes(), r.prefix_bytes());
   let mut node = SimNode::new_secure(1, &l, 0);
@@ -347,13 +350,15 @@ pub fn run(_tier: &str, ctx: &mut Ctx) -> Check {
     let topic = TOPICS[t];
     let lr = l.guid_of([0, 0, 0x30 + t as u8, 0x07]);
     let rw = r.guid_of([0, 0, 0x50 + t as u8, 0x02]);
-    let prot = l.register_reader(lr, topic).map_err(|e| v("HARNESS-ERROR/c17-register", e))?;
+    let lprot = l.register_reader(lr, topic).map_err(|e| v("HARNESS-ERROR/c17-register", e))?;
     let wprot = r.register_writer(rw, topic).map_err(|e| v("HARNESS-ERROR/c17-register", e))?;
-    if prot != wprot {
-      return Err(v("HARNESS-ERROR/c17-attrs", format!("{topic}: reader {prot:?}, writer {wprot:?}")));
+    let prot = EndpointProtection { submessage: TOPIC_RULES[t].0, payload: TOPIC_RULES[t].1 };
+    if lprot != prot || wprot != prot {
+      ctx.count("probe.plugin_attributes_differ_from_governance");
     }
+    let keys = lprot.submessage || lprot.payload || wprot.submessage || wprot.payload;
     let reader = node.add_reader([0, 0, 0x30 + t as u8, 0x07], topic, TYPE, &rq);
-    SecParty::link(&r, rw, &l, lr, prot.submessage || prot.payload).map_err(|e| v("HARNESS-ERROR/c17-link", e))?;
+    SecParty::link(&r, rw, &l, lr, keys).map_err(|e| v("HARNESS-ERROR/c17-link", e))?;
     node.remote_writer_discovered(discovered_writer_of(&r, rw, topic, TYPE, &rq, &[node_addr(2)]));
     node.drain_discovery_commands();
     let matched = node.reader_view(&reader).map(|v| v.matched_writers.len()).unwrap_or(0);
@@ -398,10 +403,12 @@ pub fn run(_tier: &str, ctx: &mut Ctx) -> Check {
     let topic = TOPICS[t];
     let lw = l.guid_of([0, 0, 0x60 + t as u8, 0x02]);
     let rr = r.guid_of([0, 0, 0x70 + t as u8, 0x07]);
-    let prot = l.register_writer(lw, topic).map_err(|e| v("HARNESS-ERROR/c17-register", e))?;
-    r.register_reader(rr, topic).map_err(|e| v("HARNESS-ERROR/c17-register", e))?;
+    let lprot = l.register_writer(lw, topic).map_err(|e| v("HARNESS-ERROR/c17-register", e))?;
+    let rprot = r.register_reader(rr, topic).map_err(|e| v("HARNESS-ERROR/c17-register", e))?;
+    let prot = EndpointProtection { submessage: TOPIC_RULES[t].0, payload: TOPIC_RULES[t].1 };
+    let keys = lprot.submessage || lprot.payload || rprot.submessage || rprot.payload;
     let mut writer = node.add_writer([0, 0, 0x60 + t as u8, 0x02], topic, &rq);
-    SecParty::link(&l, lw, &r, rr, prot.submessage || prot.payload).map_err(|e| v("HARNESS-ERROR/c17-link", e))?;
+    SecParty::link(&l, lw, &r, rr, keys).map_err(|e| v("HARNESS-ERROR/c17-link", e))?;
     node.remote_reader_discovered(discovered_reader_of(&r, rr, topic, TYPE, &rq, &[node_addr(2)]));
     node.drain_discovery_commands();
     for sn in 1..=3i64 {
@@ -611,9 +618,16 @@ pub fn run(_tier: &str, ctx: &mut Ctx) -> Check {
       return Err(v("HARNESS-ERROR/c17-split", "protected message cannot be framed".into()));
     };
     let mut blobs: Vec<Blob> = vec![];
-    let mut it = raw.into_iter();
+    let mut it = raw.into_iter().peekable();
     for (tag, wrapped) in &tags {
-      if *wrapped {
+      // (a plugin that does not consider the endpoint protected hands the submessage back unencoded)
+      if *wrapped && it.peek().map(|b| b[0]) != Some(0x31) {
+        let Tag::Part(t, _) = tag else { unreachable!() };
+        match it.next() {
+          Some(bytes) => blobs.push(Blob { bytes, tag: Tag::Plain(rig.triples[*t].rec), damaged: false }),
+          None => return Err(v("HARNESS-ERROR/c17-split", "fewer submessages than planned".into())),
+        }
+      } else if *wrapped {
         let Tag::Part(t, _) = tag else { unreachable!() };
         for part in 0..3u8 {
           match it.next() {
@@ -651,7 +665,7 @@ pub fn run(_tier: &str, ctx: &mut Ctx) -> Check {
           break;
         }
         mutated = true;
-        match ctx.ch.weighted(&[3, 1, 2, 2, 2, 3]) {
+        match ctx.ch.weighted(&[3, 1, 2, 2, 2, 3, 2]) {
           0 => {
             let i = ctx.ch.index(blobs.len());
             blobs.remove(i);
@@ -684,6 +698,32 @@ pub fn run(_tier: &str, ctx: &mut Ctx) -> Check {
               let i = ctx.ch.index(blobs.len());
               blobs[i] = b;
               ctx.count("fault.part_replaced_by_earlier_one");
+            }
+          }
+          6 => {
+            // a wrapper made up by somebody without keys: a prefix seen on the wire (its key id travels in
+            // clear) with a transformation kind of his choice, around a plain submessage, closed by a
+            // postfix seen on the wire or an empty one
+            let prefixes: Vec<&Blob> = rig.pool.iter().filter(|b| matches!(b.tag, Tag::Part(_, 0))).collect();
+            let plains: Vec<usize> = (0..blobs.len()).filter(|i| matches!(blobs[*i].tag, Tag::Plain(_))).collect();
+            if !prefixes.is_empty() && !plains.is_empty() {
+              let mut pre = prefixes[ctx.ch.index(prefixes.len())].clone();
+              let postfixes: Vec<&Blob> = rig.pool.iter().filter(|b| matches!(b.tag, Tag::Part(_, 2))).collect();
+              let mut post = postfixes[ctx.ch.index(postfixes.len())].clone();
+              if pre.bytes.len() >= 8 {
+                pre.bytes[7] = ctx.ch.index(5) as u8; // transformation kind NONE / GMAC / GCM (128, 256)
+                pre.damaged = true;
+              }
+              if ctx.ch.chance(1, 2) && post.bytes.len() >= 20 {
+                for b in post.bytes[4..20].iter_mut() {
+                  *b = 0;
+                }
+                post.damaged = true;
+              }
+              let i = plains[ctx.ch.index(plains.len())];
+              blobs.insert(i + 1, post);
+              blobs.insert(i, pre);
+              ctx.count("fault.forged_wrapper_around_plaintext");
             }
           }
           _ => {
